@@ -16,22 +16,23 @@ RULE = ('DEV with fault budget 1 under a virtual clock: real client, provider yi
         'first frame on it a fresh SETUP (only one), first stream id 1, a KEEPALIVE within one period, a probe request issued '
         'afterwards answered; non-trivial = execution in which a reconnect was requested while a request was pending')
 EXPLANATION = 'stateless deviation-bounded exploration with explicit fault and timer events; all timers on the virtual clock'
-ASSUMPTIONS = ['byte-stream link only (connection loss must be reported by the transport)']
+ASSUMPTIONS = ['TransportTCP and the QUIC transport only (connection loss must be reported by the transport)']
 BUDGET_S = {'quick': 300, 'thorough': 3600}
 
 PERIOD, LIFE = 0.5, 1.0
 
 
 class Reconnect(Scenario):
-    def __init__(self, cause, trigger, rounds=1, alts=(), modes=('Q',), lease=False):
+    def __init__(self, cause, trigger, rounds=1, alts=(), modes=('Q',), lease=False, flavour='tcp'):
         self.name = 'reconnect'
         self.cause, self.trigger, self.rounds, self.lease = cause, trigger, rounds, lease
-        self.params = {'cause': cause, 'trigger': trigger, 'rounds': rounds, 'alts': list(alts), 'modes': list(modes), 'lease': lease}
+        self.flavour = flavour
+        self.params = {'cause': cause, 'trigger': trigger, 'rounds': rounds, 'alts': list(alts), 'modes': list(modes), 'lease': lease, 'flavour': flavour}
         self.world_kw = {'alts': alts, 'modes': modes, 'fault_budget': rounds if cause != 'healthy' else 0, 'horizon': 2.0 * rounds + 1.6, 'step_cap': 900}
 
     def setup(self, w):
         from rsocket.helpers import create_future
-        conns = [w.new_conn('tcp') for _ in range(self.rounds + 1)]
+        conns = [w.new_conn(self.flavour) for _ in range(self.rounds + 1)]
         w.objs['conns'] = conns
         late = w.objs['late'] = {}
 
@@ -213,6 +214,13 @@ def make_units(tier):
         K = 8
         for k in range(K):
             units.append({'cause': cause, 'trigger': trig, 'rounds': 1, 'bound': 1, 'shard': [k, K], 'alts': [], 'lease': True})
+    # the QUIC transport (the other one that reports a lost connection); eof and rst are the same event there
+    for cause, trig in COMBOS:
+        if cause == 'eof':
+            continue
+        K = 4
+        for k in range(K):
+            units.append({'cause': cause, 'trigger': trig, 'rounds': 1, 'bound': 1, 'shard': [k, K], 'alts': [], 'flavour': 'quic'})
     if tier == 'thorough':
         for cause, trig in (('healthy', 'free'),):
             K = 32
@@ -226,7 +234,7 @@ def bounds(tier):
 
 
 def scenario_of(unit):
-    return Reconnect(unit['cause'], unit['trigger'], unit['rounds'], alts=tuple(unit['alts']), lease=unit.get('lease', False))
+    return Reconnect(unit['cause'], unit['trigger'], unit['rounds'], alts=tuple(unit['alts']), lease=unit.get('lease', False), flavour=unit.get('flavour', 'tcp'))
 
 
 def run_unit(unit, part):
@@ -234,7 +242,7 @@ def run_unit(unit, part):
 
 
 def scenario_from(name, params):
-    return Reconnect(params['cause'], params['trigger'], params['rounds'], tuple(params['alts']), tuple(params['modes']), params.get('lease', False))
+    return Reconnect(params['cause'], params['trigger'], params['rounds'], tuple(params['alts']), tuple(params['modes']), params.get('lease', False), params.get('flavour', 'tcp'))
 
 
 def replay(rec):
